@@ -101,7 +101,7 @@ PROPS = {
         "timeout": 1500,
     },
     "C03": {
-        "lean_modules": ["JrpcProofs.Props.C03", "JrpcProofs.Lemmas.Corr", "JrpcProofs.Facts.Corr", "JrpcProofs.Facts.Frames", "JrpcProofs.Facts.Writers", "JrpcProofs.Facts.Keepalive", "JrpcProofs.Facts.OneShot", "JrpcProofs.Trans.Sweep"],
+        "lean_modules": ["JrpcProofs.Props.C03", "JrpcProofs.Lemmas.Corr", "JrpcProofs.Facts.Corr", "JrpcProofs.Facts.Frames", "JrpcProofs.Facts.Writers", "JrpcProofs.Facts.Keepalive", "JrpcProofs.Facts.OneShot", "JrpcProofs.Trans.Sweep", "JrpcProofs.Trans.CtxErr"],
         "assumptions": [
             "hooks only delay goroutines; two log entries written by different goroutines around one channel rendezvous may come in either order and are reconciled by the replayer (tau steps are counted in the evidence)",
             "ids of calls that are inside doRequest at the same time differ (id counter; int64 to float64 keys are injective below 2^53 calls)",
@@ -138,7 +138,7 @@ PROPS = {
         ],
     },
     "C16": {
-        "lean_modules": ["JrpcProofs.Props.C16", "JrpcProofs.Props.Epoch", "JrpcProofs.Facts.Reverse", "JrpcProofs.Facts.Corr", "JrpcProofs.Facts.Dispatch", "JrpcProofs.Facts.Naming", "JrpcProofs.Facts.Cancel", "JrpcProofs.Facts.Frames", "JrpcProofs.Trans.Naming", "JrpcProofs.Trans.NextWriter"],
+        "lean_modules": ["JrpcProofs.Props.C16", "JrpcProofs.Props.Epoch", "JrpcProofs.Facts.Reverse", "JrpcProofs.Facts.Corr", "JrpcProofs.Facts.Dispatch", "JrpcProofs.Facts.Naming", "JrpcProofs.Facts.Cancel", "JrpcProofs.Facts.Frames", "JrpcProofs.Trans.Naming", "JrpcProofs.Trans.NextWriter", "JrpcProofs.Trans.CtxErr"],
         "assumptions": [
             "context.WithValue / Value and handler-context derivation are Go's (modelled as: a handler serving connection c sees exactly the value stored for c)",
             "'gone' means the server noticed the loss (FIN, RST, client close): the server side configures no timeout, so a silent peer is never noticed there (that is C17's territory, client side only)",
